@@ -242,10 +242,12 @@ def compare_items(ctx, ob, impl_ys, model_ys, spec_items, before, outer, inner, 
             ctx.disagree(sg + 'target_not_of_dumps', case, y['target'], stargets,
                          'yielded target is not a target of the dumps shown')
             ok = False
-        elif y['target'] != sfirst:
-            # documented as "first target associated with compound scan": the code yields the lowest-numbered one
+        elif y['target'] != sfirst and it == 'compscans':
+            # documented as "first target associated with compound scan" (C03-F2, repaired in katdal: C03_yield_values,
+            # clause w = WCompscans); scans() documents "target associated with scan" and yields the lowest-numbered one
             ctx.disagree('iter=%s;symptom=target_not_first_in_time' % it, case, y['target'], sfirst,
-                         '%s() yields the lowest-numbered target of the item, not its first target in time' % it)
+                         '%s() does not yield the first target of the item in time order' % it)
+            ok = False
     return ok
 
 
@@ -476,6 +478,10 @@ def run_body_case(ctx, ob, history, outer, cls, body, brk, how, cid, note=True, 
             if y['target'] not in sp[3]:
                 ctx.disagree(bs('target_not_of_dumps'), case, y['target'], sp[3], 'yielded target is not a target of the dumps shown')
                 ok = False
+            elif outer == 'compscans' and y['target'] != sp[2]:
+                ctx.disagree(bs('target_not_first_in_time'), case, y['target'], sp[2],
+                             'compscans() does not yield the first target of the compound scan in time order')
+                ok = False
     if brk is None or ab is None:
         # ---- exhaustion
         if brk is not None and m_ab:
@@ -654,6 +660,170 @@ def body_cases(bseed, n):
         out.append((hist, outer, cls, body, brk, how))
     return ob, out
 
+
+
+# ---------------------------------------------------------------------------------------------------------------
+# (f) the STORED attributes scan_indices / compscan_indices / target_indices over histories of mixed operations (wire_36)
+
+ATTRS = ['scan_indices', 'compscan_indices', 'target_indices']
+
+
+def ops_cases(fseed, n):
+    rng = random.Random(fseed)
+    ob = c02.Observation(c02.gen_obs(rng))
+    out = []
+    for _ in range(n):
+        ops = []
+        for _ in range(rng.choice([1, 2, 2, 3, 3, 4, 5, 6])):
+            k = rng.choice(['select', 'select', 'iter', 'nested', 'itersel', 'break', 'break'])
+            if k == 'select':
+                call = c02.gen_call(rng, ob)
+                if ops and rng.random() < 0.4:      # stack on top of what the earlier operations left
+                    call = [c for c in call if c[0] != 'reset'] + [('reset', '', [10, []], 'reset')]
+                ops.append(('select', call))
+            elif k == 'iter':
+                ops.append(('iter', rng.choice(['scans', 'compscans'])))
+            elif k == 'nested':
+                ops.append(('nested',) + tuple(rng.choice([('compscans', 'scans'), ('scans', 'compscans'), ('scans', 'scans')])))
+            elif k == 'itersel':
+                ops.append(('itersel', rng.choice(['scans', 'compscans']), gen_body(rng, ob, 'fb')))
+            else:
+                ops.append(('break', rng.choice(['scans', 'compscans']), rng.choice([0, 0, 1, 1, 2, 4])))
+        out.append((ops, rng.choice(['scans', 'compscans'])))
+    return ob, out
+
+
+def wire_op(op):
+    if op[0] == 'select':
+        return [0, c02.wire_call(op[1])]
+    if op[0] == 'iter':
+        return [1, WHICH[op[1]]]
+    if op[0] == 'nested':
+        return [2, WHICH[op[1]], WHICH[op[2]]]
+    if op[0] == 'itersel':
+        return [3, WHICH[op[1]], [c02.wire_call(c) for c in op[2]]]
+    return [4, WHICH[op[1]], op[2]]
+
+
+def describe_op(op):
+    if op[0] == 'select':
+        return ['select', c02.describe_call(op[1])]
+    if op[0] == 'itersel':
+        return ['itersel', op[1], [c02.describe_call(c) for c in op[2]]]
+    return list(op)
+
+
+def impl_op(d, op):
+    if op[0] == 'select':
+        d.select(**c02.py_call(op[1]))
+    elif op[0] == 'iter':
+        for _ in getattr(d, op[1])():
+            pass
+    elif op[0] == 'nested':
+        for _ in getattr(d, op[1])():
+            for _ in getattr(d, op[2])():
+                pass
+    elif op[0] == 'itersel':
+        for _ in getattr(d, op[1])():
+            for call in op[2]:
+                d.select(**c02.py_call(call))
+    else:
+        for i, _ in enumerate(getattr(d, op[1])()):
+            if i == op[2]:
+                break
+
+
+def impl_attrs(d):
+    return [[int(x) for x in getattr(d, a)] for a in ATTRS]
+
+
+def model_attrs(tab):
+    names = [''.join(chr(c) for c in row[0]) for row in tab]
+    return names, [row[1] for row in tab]
+
+
+def run_ops_case(ctx, ob, ops, which, cid, note=True):
+    st_w, lb_w = obs_cds(ob.d)
+    out = ctx.model([[36, [ob.wire(), st_w, lb_w, [wire_op(o) for o in ops], WHICH[which]]]])[0]
+    if out == [-999] or len(out) != 3:
+        ctx.count('ops_model_error')        # e.g. the last good model binary predates wire_36
+        return
+    hist, it, _btw = out
+    case = dict(cid=cid, ops=[describe_op(o) for o in ops], final_iter=which, obs=getattr(ob, 'spec', None),
+                statuses=[h[0] for h in hist])
+    shape = '+'.join(o[0] for o in ops) or 'none'
+
+    def osig(sym):
+        return 'ops;last=%s;symptom=%s' % (sym[0], sym[1])
+    d = ob.fresh()
+    bad = False
+    with warnings.catch_warnings():
+        warnings.simplefilter('ignore')
+        for k, (op, h) in enumerate(zip(ops, hist)):
+            if h[0] != 0:
+                ctx.count('ops_op_raises_in_model=%s' % op[0])
+                continue
+            try:
+                impl_op(d, op)
+            except Exception as e:      # noqa: BLE001
+                if op[0] == 'select':
+                    ctx.count('ops_select_raised')      # C02's business
+                    return
+                ctx.disagree(osig((op[0], 'raises')), dict(case, at=k), repr(e), 'ok', 'the operation raised', kind='tie')
+                return
+            names, lists = model_attrs(h[1])
+            got = impl_attrs(d)
+            tk = [int(x) for x in d._time_keep]
+            ctx.traces_validated += 1
+            if names != ATTRS or tk != h[2] or got != lists:
+                ctx.disagree(osig((op[0], 'index_lists_vs_model')), dict(case, at=k), [tk, got], [h[2], names, lists],
+                             'stored scan_indices / compscan_indices / target_indices (or the time mask) differ from the model '
+                             'after operation %d' % k, kind='tie')
+                bad = True
+                break
+            exp = c02.expected_from_masks(ob, tk, [int(x) for x in d._freq_keep], [int(x) for x in d._corrprod_keep])
+            if got != [exp['scans'], exp['compscans'], exp['targets']] or h[3] != 1:
+                ctx.disagree(osig((op[0], 'index_lists_stale')), dict(case, at=k), got,
+                             [exp['scans'], exp['compscans'], exp['targets']],
+                             'after operation %d the stored index lists are not the sorted indices present in the selection' % k)
+                bad = True
+                break
+        if not bad:
+            # the generator `which` on the state reached: the attributes the consumer sees at every yield and afterwards
+            seen = []
+            try:
+                for _ in getattr(d, which)():
+                    seen.append(impl_attrs(d))
+                    tkk = [int(x) for x in d._time_keep]
+                    exp = c02.expected_from_masks(ob, tkk, [int(x) for x in d._freq_keep], [int(x) for x in d._corrprod_keep])
+                    if seen[-1] != [exp['scans'], exp['compscans'], exp['targets']]:
+                        ctx.disagree(osig(('final_' + which, 'index_lists_stale_at_yield')), case, seen[-1],
+                                     [exp['scans'], exp['compscans'], exp['targets']],
+                                     'at a yield the stored index lists are not the indices present in the selection')
+                        bad = True
+                after = impl_attrs(d)
+                raised = False
+            except Exception:       # noqa: BLE001
+                raised = True
+            ctx.traces_validated += 1
+            if raised != (it[0] != 0):
+                ctx.disagree(osig(('final_' + which, 'raises_vs_model')), case, raised, it[0], 'generator raises / model does not',
+                             kind='tie')
+                bad = True
+            elif not raised:
+                m_seen = [model_attrs(t)[1] for t in it[1]]
+                m_after = model_attrs(it[2])[1]
+                if seen != m_seen or after != m_after:
+                    ctx.disagree(osig(('final_' + which, 'index_lists_vs_model')), case, [seen, after], [m_seen, m_after],
+                                 'stored index lists at the yields / after exhaustion differ from the model', kind='tie')
+                    bad = True
+            ctx.count('ops_final_items=%s' % ('raises' if raised else min(len(seen), 4)))
+    ctx.count('ops_len=%d' % len(ops))
+    for o in ops:
+        ctx.count('ops_kind=%s' % o[0])
+    if note:
+        ctx.note_case(('ops', shape, which, tuple(case['statuses'])), nontrivial=len(ops) >= 2 and not bad,
+                      sample=dict(cid=list(cid), ops=shape))
 
 # ---------------------------------------------------------------------------------------------------------------
 # (a) harness DataSet
@@ -1469,6 +1639,13 @@ def run(ctx):
         for j, (hist, outer, inner, brk) in enumerate(cases):
             run_inner_break_case(ctx, ob, hist, outer, inner, brk, ('innerbreak', bseed, 6, j))
     lap('d2_inner_breaks')
+    # (f) histories of mixed operations: the stored index attributes against the model with stored attributes
+    for _ in range(ctx.scale(25, 300)):
+        fseed = rng.randrange(1 << 30)
+        ob, cases = ops_cases(fseed, 8)
+        for j, (ops, which) in enumerate(cases):
+            run_ops_case(ctx, ob, ops, which, ('ops', fseed, 8, j))
+    lap('f_index_attr_histories')
     # (b) real format classes: segmentation + iterators
     nreal = ctx.scale(90, 1200)
     for _ in range(nreal):
@@ -1538,6 +1715,10 @@ def replay(ctx, doc):
         ob, cases = inner_break_cases(bseed, n)
         hist, outer, inner, brk = cases[j]
         run_inner_break_case(ctx, ob, hist, outer, inner, brk, tuple(cid))
+    elif kind == 'ops':
+        _, fseed, n, j = cid
+        ob, cases = ops_cases(fseed, n)
+        run_ops_case(ctx, ob, cases[j][0], cases[j][1], tuple(cid))
     elif kind == 'seg':
         run_real(ctx, cid[1], 0)
     elif kind == 'real':
